@@ -1,3 +1,552 @@
-// `alloc` engine (C19) — placeholder until the catalogue is built
+// `alloc` engine (C19): every operation of a catalogue is run inside the simulator with the n-th KSI_malloc / KSI_calloc
+// failing.  Complete single-fault sweep + seeded multi-fault sets.
+#include "eng/bworld.h"
+#include "run/plan.h"
 #include "run/runner.h"
-namespace run { int cmd_alloc_check(const std::string &tier) { (void)tier; fprintf(stderr, "alloc engine not built yet\n"); return 2; } }
+#include "sim/kernel.h"
+#include "sim/simalloc.h"
+#include "sim/peek.h"
+#include <cstring>
+#include <functional>
+#include <set>
+
+using namespace sim;
+using namespace ref;
+
+namespace eng {
+namespace {
+
+struct Env {
+	KSI_CTX *ctx = nullptr;
+	BlockingWorld bw;
+	std::string hash, sig_bytes, sig_nocal_bytes, aggr_reply, ext_reply, pubfile;
+	KSI_Signature *sig = nullptr;
+	uint64_t sig_time = 0;
+	uint64_t n = 0;
+	EndpointCfg async_cfg;
+	int async_ep = -1, async_ep2 = -1;
+};
+
+static std::string E(int res, const char *step) { char b[64]; snprintf(b, sizeof b, "E:0x%x@%s", res, step); return b; }
+#define CK(call, step) do { res = (call); if (res != KSI_OK) { out = E(res, step); goto done; } } while (0)
+
+// --- the operations. Each returns "E:..." for an error or a canonical result string; it must release everything it created.
+
+static std::string op_ctx_new(Env &) {
+	KSI_CTX *c = nullptr;
+	int res = KSI_CTX_new(&c);
+	if (res != KSI_OK) return E(res, "ctx_new");
+	KSI_CTX_free(c);
+	return "OK";
+}
+
+static std::string op_parse_serialize(Env &e) {
+	std::string out; int res; KSI_Signature *s = nullptr; unsigned char *raw = nullptr; size_t n = 0;
+	CK(KSI_Signature_parse(e.ctx, (const unsigned char *)e.sig_bytes.data(), e.sig_bytes.size(), &s), "parse");
+	CK(KSI_Signature_serialize(s, &raw, &n), "serialize");
+	out = "OK:" + hex(digest(1, std::string((char *)raw, n)));
+done:
+	KSI_free(raw);
+	KSI_Signature_free(s);
+	return out;
+}
+
+static std::string op_clone(Env &e) {
+	std::string out; int res; KSI_Signature *c = nullptr; unsigned char *raw = nullptr; size_t n = 0;
+	CK(KSI_Signature_clone(e.sig, &c), "clone");
+	CK(KSI_Signature_serialize(c, &raw, &n), "serialize");
+	out = "OK:" + hex(digest(1, std::string((char *)raw, n)));
+done:
+	KSI_free(raw);
+	KSI_Signature_free(c);
+	return out;
+}
+
+static std::string op_verify_internal(Env &e) {
+	KSI_DataHash *dh = sdk::hash_from_imprint(e.ctx, e.hash);
+	if (!dh) return E(KSI_OUT_OF_MEMORY, "hash");
+	int res = KSI_Signature_verifyWithPolicy(e.sig, dh, 0, KSI_VERIFICATION_POLICY_INTERNAL, NULL);
+	KSI_DataHash_free(dh);
+	return res == KSI_OK ? "OK" : E(res, "verify");
+}
+
+static std::string op_verify_wrong_doc(Env &e) {
+	KSI_DataHash *dh = sdk::hash_from_imprint(e.ctx, imprint(1, "not the document"));
+	if (!dh) return E(KSI_OUT_OF_MEMORY, "hash");
+	int res = KSI_Signature_verifyWithPolicy(e.sig, dh, 0, KSI_VERIFICATION_POLICY_INTERNAL, NULL);
+	KSI_DataHash_free(dh);
+	// the fault-free outcome is a verification failure
+	return res == KSI_VERIFICATION_FAILURE ? "FAIL-AS-EXPECTED" : res == KSI_OK ? "OK" : E(res, "verify");
+}
+
+static std::string op_verifier(Env &e) {
+	std::string out; int res;
+	KSI_VerificationContext vc; KSI_PolicyVerificationResult *pr = nullptr;
+	res = KSI_VerificationContext_init(&vc, e.ctx);
+	if (res != KSI_OK) return E(res, "vc_init");
+	vc.signature = e.sig;
+	CK(KSI_SignatureVerifier_verify(KSI_VERIFICATION_POLICY_INTERNAL, &vc, &pr), "verifier");
+	out = "OK:" + std::to_string((int)pr->finalResult.resultCode) + ":" + std::to_string((int)pr->finalResult.errorCode);
+done:
+	KSI_PolicyVerificationResult_free(pr);
+	vc.signature = NULL;
+	KSI_VerificationContext_clean(&vc);
+	return out;
+}
+
+static std::string op_pdu_parse_aggr(Env &e) {
+	KSI_AggregationPdu *pdu = nullptr;
+	int res = KSI_AggregationPdu_parse(e.ctx, (const unsigned char *)e.aggr_reply.data(), e.aggr_reply.size(), &pdu);
+	if (res != KSI_OK) return E(res, "parse");
+	res = KSI_AggregationPdu_verify(pdu, e.bw.aggr.key.c_str());
+	KSI_AggregationPdu_free(pdu);
+	return res == KSI_OK ? "OK" : E(res, "verify");
+}
+
+static std::string op_pdu_parse_ext(Env &e) {
+	KSI_ExtendPdu *pdu = nullptr;
+	int res = KSI_ExtendPdu_parse(e.ctx, (const unsigned char *)e.ext_reply.data(), e.ext_reply.size(), &pdu);
+	if (res != KSI_OK) return E(res, "parse");
+	res = KSI_ExtendPdu_verify(pdu, e.bw.ext.key.c_str());
+	KSI_ExtendPdu_free(pdu);
+	return res == KSI_OK ? "OK" : E(res, "verify");
+}
+
+static std::string op_request_build(Env &e) {
+	std::string out; int res;
+	KSI_DataHash *dh = nullptr; KSI_AggregationReq *req = nullptr; KSI_AggregationPdu *pdu = nullptr; unsigned char *raw = nullptr; size_t n = 0;
+	dh = sdk::hash_from_imprint(e.ctx, e.hash);
+	if (!dh) return E(KSI_OUT_OF_MEMORY, "hash");
+	CK(KSI_createSignRequest(e.ctx, dh, 3, &req), "createSignRequest");
+	CK(KSI_AggregationReq_enclose(req, "anon", "anon", &pdu), "enclose");
+	req = nullptr; // owned by the PDU now
+	CK(KSI_AggregationPdu_serialize(pdu, &raw, &n), "serialize");
+	{ ReqInfo ri; out = parse_request(std::string((char *)raw, n), "anon", ri) && ri.mac_ok && ri.hash == e.hash && ri.level == 3 ? "OK" : "WRONG-PDU"; }
+done:
+	KSI_free(raw);
+	KSI_AggregationPdu_free(pdu);
+	KSI_AggregationReq_free(req);
+	KSI_DataHash_free(dh);
+	return out;
+}
+
+static std::string sign_once(Env &e) {
+	KSI_DataHash *dh = sdk::hash_from_imprint(e.ctx, e.hash);
+	if (!dh) return E(KSI_OUT_OF_MEMORY, "hash");
+	CallEnv ce; ce.subseed = 4242; ce.chunk = 97;
+	e.bw.arm(ce);
+	KSI_Signature *sig = nullptr;
+	int res = KSI_Signature_signAggregated(e.ctx, dh, 1, &sig);
+	e.bw.disarm();
+	KSI_DataHash_free(dh);
+	if (res != KSI_OK) return E(res, "sign");
+	std::string bytes = sdk::serialize(sig);
+	KSI_Signature_free(sig);
+	SigView v; if (!parse_signature(bytes, v)) return bytes.empty() ? E(KSI_OUT_OF_MEMORY, "serialize") : "INVALID";
+	SigFacts f = evaluate(v);
+	return f.consistent && f.input_hash == e.hash && f.first_lc >= 1 ? "OK:valid" : "INVALID";
+}
+
+static std::string extend_once(Env &e) {
+	CallEnv ce; ce.subseed = 77; ce.chunk = 211;
+	e.bw.arm(ce);
+	KSI_Signature *out = nullptr;
+	int res = KSI_Signature_extendTo(e.sig, e.ctx, NULL, &out);
+	e.bw.disarm();
+	if (res != KSI_OK) return E(res, "extend");
+	std::string bytes = sdk::serialize(out);
+	KSI_Signature_free(out);
+	SigView v; if (!parse_signature(bytes, v)) return bytes.empty() ? E(KSI_OUT_OF_MEMORY, "serialize") : "INVALID";
+	SigFacts f = evaluate(v);
+	return f.consistent && f.input_hash == e.hash && v.has_cal && v.cal.pub == e.bw.world.head() ? "OK:valid" : "INVALID";
+}
+
+static std::string op_treebuilder(Env &e) {
+	std::string out; int res;
+	KSI_TreeBuilder *b = nullptr; KSI_TreeLeafHandle *leaves[5] = {nullptr, nullptr, nullptr, nullptr, nullptr}; KSI_DataHash *hs[5] = {nullptr, nullptr, nullptr, nullptr, nullptr};
+	KSI_AggregationHashChain *chain = nullptr; KSI_DataHash *root = nullptr; int lvl = 0;
+	CK(KSI_TreeBuilder_new(e.ctx, KSI_HASHALG_SHA2_256, &b), "new");
+	for (int i = 0; i < 5; i++) {
+		hs[i] = sdk::hash_from_imprint(e.ctx, imprint(1, "leaf" + std::to_string(i)));
+		if (!hs[i]) { out = E(KSI_OUT_OF_MEMORY, "hash"); goto done; }
+		CK(KSI_TreeBuilder_addDataHash(b, hs[i], i == 2 ? 1 : 0, &leaves[i]), "add");
+	}
+	CK(KSI_TreeBuilder_close(b), "close");
+	CK(KSI_TreeLeafHandle_getAggregationChain(leaves[3], &chain), "getchain");
+	CK(KSI_AggregationHashChain_aggregate(chain, 0, &lvl, &root), "aggregate");
+	out = "OK:" + hex(sdk::imprint_of(root)) + ":" + std::to_string(lvl);
+done:
+	KSI_DataHash_free(root);
+	KSI_AggregationHashChain_free(chain);
+	for (int i = 0; i < 5; i++) { KSI_TreeLeafHandle_free(leaves[i]); KSI_DataHash_free(hs[i]); }
+	KSI_TreeBuilder_free(b);
+	return out;
+}
+
+static std::string op_blocksigner(Env &e) {
+	std::string out; int res;
+	KSI_BlockSigner *bs = nullptr; KSI_BlockSignerHandle *h[3] = {nullptr, nullptr, nullptr}; KSI_DataHash *hs[3] = {nullptr, nullptr, nullptr}; KSI_Signature *sig = nullptr;
+	KSI_OctetString *iv = nullptr; KSI_DataHash *zero = nullptr;
+	CK(KSI_OctetString_new(e.ctx, (const unsigned char *)"0123456789abcdef0123456789abcdef", 32, &iv), "iv");
+	CK(KSI_DataHash_createZero(e.ctx, KSI_HASHALG_SHA2_256, &zero), "zero");
+	CK(KSI_BlockSigner_new(e.ctx, KSI_HASHALG_SHA2_256, zero, iv, &bs), "new");
+	for (int i = 0; i < 3; i++) {
+		hs[i] = sdk::hash_from_imprint(e.ctx, imprint(1, "bsleaf" + std::to_string(i)));
+		if (!hs[i]) { out = E(KSI_OUT_OF_MEMORY, "hash"); goto done; }
+		CK(KSI_BlockSigner_addLeaf(bs, hs[i], 0, NULL, &h[i]), "add");
+	}
+	{
+		CallEnv ce; ce.subseed = 99; e.bw.arm(ce);
+		res = KSI_BlockSigner_closeAndSign(bs);
+		e.bw.disarm();
+		if (res != KSI_OK) { out = E(res, "closeAndSign"); goto done; }
+	}
+	CK(KSI_BlockSignerHandle_getSignature(h[1], &sig), "getSignature");
+	{
+		std::string bytes = sdk::serialize(sig);
+		SigView v; SigFacts f;
+		if (parse_signature(bytes, v)) f = evaluate(v);
+		out = f.consistent && f.input_hash == imprint(1, "bsleaf1") ? "OK:valid" : bytes.empty() ? E(KSI_OUT_OF_MEMORY, "serialize") : "INVALID";
+	}
+done:
+	KSI_Signature_free(sig);
+	for (int i = 0; i < 3; i++) { KSI_BlockSignerHandle_free(h[i]); KSI_DataHash_free(hs[i]); }
+	KSI_BlockSigner_free(bs);
+	KSI_DataHash_free(zero);
+	KSI_OctetString_free(iv);
+	return out;
+}
+
+// the asynchronous service: add k requests, serve them honestly, drain.  Returns the multiset of final states.
+static void serve_async(Env &e, int ep, const EndpointCfg &cfg) {
+	for (auto &cp : N.conns) {
+		Conn &c = *cp;
+		if (c.ep != ep || c.st != Conn::ESTABLISHED) continue;
+		for (;;) {
+			std::string av = N.srv_peek(c);
+			size_t fl = frame_len(av, 0);
+			if (fl == 0 || fl > av.size()) break;
+			ReqInfo ri; parse_request(N.srv_take(c, fl), cfg.key, ri);
+			ReplyMeta m;
+			N.srv_write(c, e.bw.world.aggr_reply(ri, cfg, B_HONEST, 5 + ri.id, m));
+		}
+		N.deliver(c, 0);
+	}
+}
+
+static std::string async_roundtrip(Env &e, bool ha) {
+	std::string out; int res;
+	KSI_AsyncService *svc = nullptr;
+	KSI_AsyncHandle *pending[4] = {nullptr, nullptr, nullptr, nullptr}; // created but not (yet) accepted: still ours
+	int accepted = 0, responses = 0, errors = 0, returned = 0, sigs = 0;
+	std::string uri1 = "ksi+tcp://async1.sim:4001", uri2 = "ksi+tcp://async2.sim:4002";
+	CK(ha ? KSI_SigningHighAvailabilityService_new(e.ctx, &svc) : KSI_SigningAsyncService_new(e.ctx, &svc), "service_new");
+	if (ha) {
+		CK(KSI_AsyncService_addEndpoint(svc, uri1.c_str(), e.async_cfg.login.c_str(), e.async_cfg.key.c_str()), "addEndpoint");
+		CK(KSI_AsyncService_addEndpoint(svc, uri2.c_str(), e.async_cfg.login.c_str(), e.async_cfg.key.c_str()), "addEndpoint2");
+	} else CK(KSI_AsyncService_setEndpoint(svc, uri1.c_str(), e.async_cfg.login.c_str(), e.async_cfg.key.c_str()), "setEndpoint");
+	CK(KSI_AsyncService_setOption(svc, KSI_ASYNC_OPT_REQUEST_CACHE_SIZE, (void *)4), "cache");
+	CK(KSI_AsyncService_setOption(svc, KSI_ASYNC_OPT_MAX_REQUEST_COUNT, (void *)100), "maxreq");
+	for (int i = 0; i < 3; i++) {
+		KSI_DataHash *dh = sdk::hash_from_imprint(e.ctx, imprint(1, "async-doc" + std::to_string(i)));
+		if (!dh) { out = E(KSI_OUT_OF_MEMORY, "hash"); goto done; }
+		res = KSI_AsyncSigningHandle_new(e.ctx, dh, 0, &pending[i]);
+		if (res != KSI_OK) { KSI_DataHash_free(dh); out = E(res, "handle_new"); goto done; }
+		res = KSI_AsyncService_addRequest(svc, pending[i]);
+		if (res != KSI_OK) { out = E(res, "addRequest"); goto done; }
+		pending[i] = nullptr; // owned by the service
+		accepted++;
+	}
+	for (int round = 0; round < 40 && returned < accepted; round++) {
+		KSI_AsyncHandle *h = nullptr; size_t waiting = 0;
+		res = KSI_AsyncService_run(svc, &h, &waiting);
+		if (res != KSI_OK) { out = E(res, "run"); goto done; }
+		if (h) {
+			int st = 0; KSI_AsyncHandle_getState(h, &st);
+			if (st == KSI_ASYNC_STATE_RESPONSE_RECEIVED) {
+				responses++; returned++;
+				KSI_Signature *s = nullptr;
+				if (KSI_AsyncHandle_getSignature(h, &s) == KSI_OK) { sigs++; KSI_Signature_free(s); }
+			} else if (st == KSI_ASYNC_STATE_ERROR) { errors++; returned++; }
+			KSI_AsyncHandle_free(h);
+		} else {
+			K.advance(300);
+			serve_async(e, e.async_ep, e.async_cfg);
+			if (ha) serve_async(e, e.async_ep2, e.async_cfg);
+		}
+	}
+	// C13 identity after the fault: everything accepted was handed back exactly once
+	if (returned != accepted) out = "LOST:" + std::to_string(accepted - returned);
+	else if (errors || sigs != responses) out = "E:request-level-error:" + std::to_string(errors) + "e" + std::to_string(responses - sigs) + "nosig"; // the failure surfaced through a handle
+	else out = "OK:" + std::to_string(responses) + "r" + std::to_string(sigs) + "s";
+done:
+	for (auto *p : pending) if (p) KSI_AsyncHandle_free(p);
+	KSI_AsyncService_free(svc);
+	return out;
+}
+
+static std::string op_cache_grow(Env &e) {
+	std::string out; int res; KSI_AsyncService *svc = nullptr; size_t v = 0;
+	CK(KSI_SigningAsyncService_new(e.ctx, &svc), "service_new");
+	CK(KSI_AsyncService_setEndpoint(svc, "ksi+tcp://async1.sim:4001", "u", "k"), "setEndpoint");
+	CK(KSI_AsyncService_setOption(svc, KSI_ASYNC_OPT_REQUEST_CACHE_SIZE, (void *)8), "grow8");
+	CK(KSI_AsyncService_setOption(svc, KSI_ASYNC_OPT_REQUEST_CACHE_SIZE, (void *)64), "grow64");
+	CK(KSI_AsyncService_getOption(svc, KSI_ASYNC_OPT_REQUEST_CACHE_SIZE, (void *)&v), "get");
+	out = "OK:" + std::to_string(v);
+done:
+	KSI_AsyncService_free(svc);
+	return out;
+}
+
+static std::string op_identity(Env &e) {
+	std::string out; int res; KSI_HashChainLinkIdentityList *il = nullptr; char buf[2048];
+	CK(KSI_Signature_getAggregationHashChainIdentity(e.sig, &il), "identity");
+	out = "OK:" + std::to_string(KSI_HashChainLinkIdentityList_length(il));
+	{
+		KSI_DataHash *dh = nullptr;
+		if (KSI_Signature_getDocumentHash(e.sig, &dh) != KSI_OK || KSI_DataHash_toString(dh, buf, sizeof buf) == NULL) out = E(KSI_OUT_OF_MEMORY, "toString");
+	}
+done:
+	KSI_HashChainLinkIdentityList_free(il);
+	return out;
+}
+
+static std::string op_pubfile_parse(Env &e) {
+	if (e.pubfile.empty()) return "SKIP";
+	std::string out; int res; KSI_PublicationsFile *pf = nullptr; KSI_PublicationRecord *pr = nullptr; char *s = nullptr;
+	CK(KSI_PublicationsFile_parse(e.ctx, e.pubfile.data(), e.pubfile.size(), &pf), "parse");
+	CK(KSI_PublicationsFile_getLatestPublication(pf, NULL, &pr), "latest");
+	{
+		KSI_PublicationData *pd = nullptr;
+		CK(KSI_PublicationRecord_getPublishedData(pr, &pd), "pubdata");
+		CK(KSI_PublicationData_toBase32(pd, &s), "base32");
+		out = std::string("OK:") + s;
+	}
+done:
+	KSI_free(s);
+	KSI_PublicationsFile_free(pf); /* the record belongs to the file */
+	return out;
+}
+
+struct Case { const char *name; std::function<std::string(Env &)> op; };
+
+static std::vector<Case> &catalogue() {
+	static std::vector<Case> c = {
+		{"ctx_new_free", op_ctx_new},
+		{"signature_parse_serialize", op_parse_serialize},
+		{"signature_clone", op_clone},
+		{"verify_internal_with_document_hash", op_verify_internal},
+		{"verify_internal_wrong_document", op_verify_wrong_doc},
+		{"signature_verifier_internal_policy", op_verifier},
+		{"aggregation_pdu_parse_verify", op_pdu_parse_aggr},
+		{"extend_pdu_parse_verify", op_pdu_parse_ext},
+		{"sign_request_build_enclose_serialize", op_request_build},
+		{"sign_blocking", sign_once},
+		{"extend_blocking", extend_once},
+		{"tree_builder_5_leaves", op_treebuilder},
+		{"block_signer_3_leaves_close_and_sign", op_blocksigner},
+		{"async_service_3_requests_roundtrip", [](Env &e) { return async_roundtrip(e, false); }},
+		{"ha_service_2_endpoints_roundtrip", [](Env &e) { return async_roundtrip(e, true); }},
+		{"async_cache_size_growth", op_cache_grow},
+		{"identity_and_to_string", op_identity},
+		{"publications_file_parse_lookup", op_pubfile_parse},
+	};
+	return c;
+}
+
+struct Outcome1 { std::string r1, r2; uint64_t n = 0, fired = 0, leaked = 0, bad_free = 0; bool setup_ok = true; std::string leak_sites, fail_site; };
+
+// transport variants: cfg "variant" bit0 = http for blocking calls
+static Outcome1 run_case(size_t k, const std::vector<uint64_t> &fail_at, uint64_t fail_from, int variant) {
+	Outcome1 o;
+	K.reset(1600000000000LL);
+	N.reset(); C.reset(); A.reset_all();
+	Env e;
+	e.bw.setup(2, 1, 8, 6, variant & 1, variant & 1);
+	e.bw.install_hooks();
+	e.async_cfg.key = "asynckey"; e.async_cfg.login = "asyncuser";
+	e.async_ep = N.add_endpoint("async1.sim", 4001);
+	e.async_ep2 = N.add_endpoint("async2.sim", 4002);
+	e.ctx = sdk::new_ctx(0);
+	if (!e.ctx) { o.setup_ok = false; return o; }
+	e.bw.attach(e.ctx);
+	KSI_CTX_setTransferTimeoutSeconds(e.ctx, 5);
+	e.hash = imprint(1, "alloc-doc");
+	{ ReplyMeta m; e.sig_bytes = e.bw.world.make_signature(e.hash, 0, 31337, true, m, 2); e.sig_time = m.agg_time; }
+	for (int i = 0; i < 3; i++) { ReplyMeta m; e.bw.world.make_signature(imprint(1, "later" + std::to_string(i)), 0, 40 + i, true, m); }
+	{
+		ReqInfo ri; ri.has_id = true; ri.id = 7; ri.hash = e.hash; ri.has_hash = true; ri.level = 0; ReplyMeta m;
+		e.aggr_reply = e.bw.world.aggr_reply(ri, e.bw.aggr, B_HONEST, 11, m);
+		ReqInfo rx; rx.has_id = true; rx.id = 8; rx.is_ext = true; rx.agg_time = e.sig_time; rx.has_agg_time = true;
+		e.ext_reply = e.bw.world.ext_reply(rx, e.bw.ext, B_HONEST, 12, m);
+	}
+	js::read_file("/repo/test/resource/tlv/ksi-publications.bin", e.pubfile);
+	e.sig = sdk::parse_sig(e.ctx, e.sig_bytes);
+	if (!e.sig) { o.setup_ok = false; KSI_CTX_free(e.ctx); return o; }
+	Case &c = catalogue()[k];
+	// faulted execution
+	A.reset_counter();
+	A.trace = true;
+	for (auto i : fail_at) A.fail_at.insert(i);
+	A.fail_from = fail_from;
+	A.armed = true;
+	K.api_begin(c.name);
+	o.r1 = c.op(e);
+	A.armed = false;
+	o.n = A.count; o.fired = A.fired; o.fail_site = A.last_fail_site;
+	// the same operation again, without the fault, on the same context and objects
+	o.r2 = c.op(e);
+	KSI_Signature_free(e.sig);
+	KSI_CTX_free(e.ctx);
+	o.leaked = A.live.size();
+	o.bad_free = A.bad_free;
+	{
+		std::set<std::string> sites;
+		for (auto &kv : A.live) sites.insert(alloc_site(kv.first));
+		for (auto &s : sites) { if (!o.leak_sites.empty()) o.leak_sites += " + "; o.leak_sites += s; }
+	}
+	A.trace = false;
+	return o;
+}
+
+struct AllocEngine : run::Engine {
+	std::vector<uint64_t> base_n;       // allocations of the fault-free operation, per case and variant
+	std::vector<std::string> base_r;
+	void baseline() {
+		if (!base_n.empty()) return;
+		for (size_t k = 0; k < catalogue().size(); k++) for (int v = 0; v < 2; v++) {
+			Outcome1 o = run_case(k, {}, 0, v);
+			base_n.push_back(o.n); base_r.push_back(o.r1);
+		}
+	}
+	uint64_t total_single() { baseline(); uint64_t t = 0; for (auto n : base_n) t += n; return t; }
+	const char *name() const override { return "alloc"; }
+	run::Plan generate(uint64_t seed, const std::string &property, int tier) override { return generate_at(0, seed, property, tier); }
+	run::Plan generate_at(uint64_t index, uint64_t seed, const std::string &property, int tier) override {
+		(void)tier;
+		baseline();
+		run::Plan p; p.engine = name(); p.property = property; p.seed = seed;
+		uint64_t i = index;
+		for (size_t kv = 0; kv < base_n.size(); kv++) {
+			if (i < base_n[kv]) { p.cfg["case"] = (int64_t)(kv / 2); p.cfg["variant"] = (int64_t)(kv % 2); p.cfg["fail1"] = (int64_t)i + 1; return p; }
+			i -= base_n[kv];
+		}
+		// beyond the single-fault sweep: seeded multi-fault sets and "everything fails from i on"
+		Rng g(mix(seed, 0xa110c));
+		size_t kv = g.below(base_n.size());
+		while (base_n[kv] < 3) kv = g.below(base_n.size());
+		p.cfg["case"] = (int64_t)(kv / 2); p.cfg["variant"] = (int64_t)(kv % 2);
+		if (g.chance(1, 3)) p.cfg["fail_from"] = (int64_t)g.range(1, (int64_t)base_n[kv]);
+		else {
+			int m = (int)g.range(2, 4);
+			for (int j = 0; j < m; j++) p.cfg["fail" + std::to_string(j + 1)] = (int64_t)g.range(1, (int64_t)base_n[kv]);
+		}
+		return p;
+	}
+	run::RunResult execute(const run::Plan &p, bool trace) override {
+		baseline();
+		run::RunResult rr;
+		K.trace = trace;
+		size_t k = (size_t)p.c("case") % catalogue().size();
+		int variant = (int)p.c("variant") & 1;
+		std::vector<uint64_t> fa;
+		for (int j = 1; j <= 4; j++) if (p.c("fail" + std::to_string(j))) fa.push_back((uint64_t)p.c("fail" + std::to_string(j)));
+		Outcome1 o = run_case(k, fa, (uint64_t)p.c("fail_from"), variant);
+		const std::string &base = base_r[k * 2 + (size_t)variant];
+		const char *cn = catalogue()[k].name;
+		std::string desc = std::string(cn) + (variant ? "/http" : "/tcp");
+		K.ev("alloc case=%s n=%llu fired=%llu r1=%s r2=%s leaked=%llu", desc.c_str(), (unsigned long long)o.n, (unsigned long long)o.fired, o.r1.substr(0, 40).c_str(), o.r2.substr(0, 40).c_str(), (unsigned long long)o.leaked);
+		K.count(("case." + desc).c_str());
+		if (o.fired) K.count("outcome.fault_fired"); else K.count("outcome.fault_not_reached");
+		bool r1_err = o.r1.compare(0, 2, "E:") == 0;
+		if (o.fired && r1_err) K.count("outcome.error_returned"); else if (o.fired) K.count("outcome.completed_despite_fault");
+		if (!o.setup_ok) { K.inconclusive = true; K.inconclusive_why = "setup failed"; }
+		else {
+			bool persistent = p.c("fail_from") != 0; // every allocation fails from some point on: no request can be completed any more
+			if (o.r1.compare(0, 5, "LOST:") == 0 && persistent) K.count("outcome.no_progress_under_persistent_failure");
+			else if (o.r1.compare(0, 5, "LOST:") == 0) K.fail("C19", "request-lost-after-failed-allocation", std::string(cn) + "@" + o.fail_site, "%s: after a failed allocation in %s an accepted request was never handed back (%s)", desc.c_str(), o.fail_site.c_str(), o.r1.c_str());
+			else if (!r1_err && o.r1 != base) K.fail("C19", "wrong-result-after-failed-allocation", std::string(cn) + "@" + o.fail_site, "%s: with allocation(s) failing the operation reported success with another result than fault-free (%s vs %s)", desc.c_str(), o.r1.substr(0, 60).c_str(), base.substr(0, 60).c_str());
+			if (!o.fired && o.r1 != base) K.fail("C19", "harness-baseline-unstable", cn, "%s: result differs without any fault", desc.c_str());
+			if (o.r2 != base) K.fail("C19", "not-usable-after-failed-allocation", std::string(cn) + "@" + o.fail_site, "%s: repeating the operation without the fault on the same context gives %s instead of %s (first attempt: %s)", desc.c_str(), o.r2.substr(0, 60).c_str(), base.substr(0, 60).c_str(), o.r1.substr(0, 40).c_str());
+			if (o.leaked) K.fail("C19", "leak-after-failed-allocation", o.leak_sites, "%s: %llu allocation(s) still live after everything was freed, allocated in %s (first attempt: %s)", desc.c_str(), (unsigned long long)o.leaked, o.leak_sites.c_str(), o.r1.substr(0, 40).c_str());
+			if (o.bad_free) K.fail("C19", "invalid-free", cn, "%s: %llu free() of a pointer that is not live", desc.c_str(), (unsigned long long)o.bad_free);
+			if (K.counters.count("probe.blocked_without_timeout")) K.fail("C19", "blocked-after-failed-allocation", cn, "%s: a blocking call waited without timeout", desc.c_str());
+		}
+		rr.hash = mix(K.hash, mix(o.n, o.fired));
+		rr.violations = K.violations; rr.counters = K.counters; rr.sim_ms = K.elapsed_ms;
+		rr.inconclusive = K.inconclusive; rr.inconclusive_why = K.inconclusive_why;
+		rr.nontrivial = o.fired > 0;
+		rr.abstract_states.push_back(mix(k * 2 + (size_t)variant, o.fired ? (r1_err ? 1 : 2) : 0));
+		if (trace) rr.log = K.log;
+		K.trace = false;
+		return rr;
+	}
+	uint64_t planned_runs(int tier) override { return total_single() + (tier ? 400000 : 4000); }
+	void extra_evidence(js::Val &cov, int tier) override {
+		js::Val cases = js::Val::arr();
+		for (size_t kv = 0; kv < base_n.size(); kv++) {
+			js::Val c = js::Val::obj();
+			c.set("operation", std::string(catalogue()[kv / 2].name) + (kv % 2 ? "/http" : "/tcp"));
+			c.set("allocations", js::Val(base_n[kv]));
+			c.set("single_fault_indices_covered", "1.." + std::to_string(base_n[kv]) + " (all)");
+			c.set("fault_free_result", base_r[kv].substr(0, 40));
+			cases.push(c);
+		}
+		cov.set("catalogue", cases);
+		cov.set("single_fault_space", js::Val(total_single()));
+		cov.set("multi_fault_sets_planned", js::Val((uint64_t)(tier ? 400000 : 4000)));
+		cov.set("exhaustive", true);
+		cov.set("exhaustive_over", "every single allocation index 1..N of every catalogue operation (N measured by a counting run); the multi-fault sets on top are sampled");
+	}
+	std::string nontrivial_rule() const override { return "one evaluation = one catalogue operation run from a fresh setup with a chosen set of allocation indices failing; non-trivial = at least one failure was actually injected (the index was reached); distinct = distinct (operation, transport, fault set, event log)"; }
+};
+
+static AllocEngine g_alloc;
+struct RegAl { RegAl() { run::register_engine(&g_alloc); } } g_regal;
+
+} // namespace
+
+uint64_t alloc_total_single() { return g_alloc.total_single(); }
+
+// triage helper: every single-fault index in an isolated child; prints one line per distinct (operation, problem, site)
+int alloc_triage() {
+	g_alloc.baseline();
+	uint64_t total = g_alloc.total_single();
+	std::map<std::string, std::pair<uint64_t, uint64_t>> seen; // key -> (count, first index)
+	for (uint64_t i = 0; i < total; i++) {
+		run::Plan p = g_alloc.generate_at(i, 0, "C19", 0);
+		run::Isolated r = run::run_isolated(p);
+		std::string key;
+		std::string cn = catalogue()[(size_t)p.c("case")].name;
+		if (r.crashed) {
+			std::string t = r.stderr_head;
+			std::string kind = "crash";
+			size_t k = t.find("ERROR: AddressSanitizer: ");
+			if (k != std::string::npos) kind = t.substr(k + 25, t.find_first_of(" \n", k + 25) - (k + 25));
+			else if ((k = t.find("runtime error: ")) != std::string::npos) kind = "ubsan:" + t.substr(k + 15, std::min<size_t>(50, t.find('\n', k) - (k + 15)));
+			std::string site = "?";
+			size_t f = t.find("/repo/src/ksi/");
+			if (f != std::string::npos) site = t.substr(f + 14, t.find_first_of(" \n)", f) - (f + 14));
+			// function name of that frame
+			size_t in = t.rfind(" in ", f);
+			std::string fn = in != std::string::npos ? t.substr(in + 4, f - in - 5) : "";
+			key = cn + " | " + kind + " | " + fn + " " + site;
+		} else {
+			for (auto &v : r.violations) key += cn + " | " + v.rule + " | " + v.detail.substr(v.detail.find(':') + 1, 60) + " ;; ";
+		}
+		if (key.empty()) continue;
+		auto &e = seen[key];
+		if (!e.first) e.second = i;
+		e.first++;
+	}
+	for (auto &kv : seen) printf("%6llu x first@%llu  %s\n", (unsigned long long)kv.second.first, (unsigned long long)kv.second.second, kv.first.c_str());
+	return 0;
+}
+std::vector<std::pair<std::string, uint64_t>> alloc_case_sizes() {
+	g_alloc.baseline();
+	std::vector<std::pair<std::string, uint64_t>> v;
+	for (size_t kv = 0; kv < g_alloc.base_n.size(); kv++) v.push_back({std::string(catalogue()[kv / 2].name) + (kv % 2 ? "/http" : "/tcp"), g_alloc.base_n[kv]});
+	return v;
+}
+
+} // namespace eng
